@@ -45,12 +45,12 @@ class Unsupported(Exception):
     """the real objects are outside what the model represents"""
 
 
-def build(spec, hashes=None, chashes=None, fresh_strings=False):
+def build(spec, hashes=None, chashes=None, fresh_strings=False, plain=False):
     """Construct a BaseProject from a spec.  `hashes[i]` = hash of task i (default i)."""
     S = (lambda s: "".join(list(s))) if fresh_strings else (lambda s: s)
     tasks = []
     for i, ts in enumerate(spec["tasks"]):
-        t = HTask(
+        t = (BaseTask if plain else HTask)(
             name=ts.get("name", "T%d" % i),
             ID="t%d" % i,
             default_work_amount=ts["work"],
@@ -78,7 +78,7 @@ def build(spec, hashes=None, chashes=None, fresh_strings=False):
 
     comps = []
     for i, cs in enumerate(spec.get("components", [])):
-        c = HComponent(name="C%d" % i, ID="c%d" % i, space_size=cs.get("size", 1.0))
+        c = (BaseComponent if plain else HComponent)(name="C%d" % i, ID="c%d" % i, space_size=cs.get("size", 1.0))
         c._h = i if chashes is None else chashes[i]
         comps.append(c)
     for i, cs in enumerate(spec.get("components", [])):
